@@ -95,6 +95,12 @@ Theorem C03_pre_gamma_total : forall f : formula, exists g, simp_ht_full f = SOk
 Proof. exact simp_ht_full_total. Qed.
 Print Assumptions C03_pre_gamma_total.
 
+(* the clash premise is decidable by a boolean test on the model's own problems *)
+Theorem C03_clash_premise_decidable :
+  forall t : strong_task, no_symbol_pred_clash_fullb t = true <-> no_symbol_pred_clash_full t.
+Proof. exact no_symbol_pred_clash_fullb_ok. Qed.
+Print Assumptions C03_clash_premise_decidable.
+
 (* ---------- non-vacuity ---------- *)
 (* (1) the model computes, inside Coq, exactly what the CLI prints.
        `p(X) :- q(X), not r(X).`  vs  `p(X) :- q(X).`
@@ -149,10 +155,7 @@ Definition t_ex : strong_task := mkstrong e_lp f_lp DSequential DForward ReprTau
 Definition M_ex : pint := fun p a => p = "hq" \/ p = "tq" \/ p = "tr".
 
 Lemma t_ex_no_clash : no_symbol_pred_clash_full t_ex.
-Proof.
-  split; intros a s Ha Hs; vm_compute in Ha;
-    repeat (destruct Ha as [<-|Ha]; [vm_compute in Hs; destruct Hs|]); destruct Ha.
-Qed.
+Proof. apply no_symbol_pred_clash_fullb_ok. vm_compute. reflexivity. Qed.
 
 Example C03_nonvacuous :
   exists pbs, strong_decompose_full t_ex = SOk pbs /\ pbs <> [] /\
